@@ -48,3 +48,23 @@ func VerifH_C20_a() {
 	vReach("qi-quai-qi")
 	vAssert("roundtrip/qi-quai-qi-no-gain", back2.Cmp(y) <= 0)
 }
+
+// H-C20-b: FindMinDenominations splits an amount into Qi denominations without remainder and
+// without creating value: sum(count[d] * denomination[d]) == amount, for every amount below the
+// bound (quick: < 200 000 qits, i.e. denominations 0..10 can be non-zero).
+//
+// verif:bounds decisions=200
+func VerifH_C20_b() {
+	amount := vBig("amount")
+	vAssume(amount.Sign() >= 0)
+	vAssume(amount.Cmp(big.NewInt(200000)) < 0)
+	res := FindMinDenominations(amount)
+	sum := new(big.Int)
+	for d, cnt := range res {
+		vAssert("denominations/valid-denomination", d <= types.MaxDenomination)
+		vAssert("denominations/count-positive", cnt > 0)
+		sum.Add(sum, new(big.Int).Mul(new(big.Int).SetUint64(cnt), types.Denominations[d]))
+	}
+	vReach("split")
+	vAssert("denominations/sum-equals-amount", sum.Cmp(amount) == 0)
+}
